@@ -76,7 +76,7 @@ var kinds = []kind{
 	{name: "plainstruct", typ: reflect.TypeOf(Plain{})},
 }
 
-var tagNames = []string{"a", "b/c", "d"}
+var tagNames = []string{"d", "a", "b/c"} // deliberately not in sorted order
 
 type svc struct {
 	mu   sync.Mutex
@@ -246,7 +246,7 @@ func TestCheck(t *testing.T) {
 			sec.Exhaustive = false
 			break
 		}
-		for _, via := range []string{"newstore", "apply"} {
+		for _, via := range []string{"newstore", "apply", "secrets-then-apply"} {
 			sec.Evaluations++
 			if msg, kind, nontriv := runShape(s, via); msg != "" {
 				rep.Violate(sec.Name, "fields/"+kind+": "+via+" "+s.String(), via+" "+s.String()+": "+msg, map[string]any{"shape": s.String(), "via": via})
@@ -386,9 +386,20 @@ func runShape(s shape, via string) (msg, kind string, nontrivial bool) {
 			if strings.Join(got, ",") != strings.Join(w, ",") {
 				return fmt.Sprintf("Secrets() = %v, want %v", got, w), "names", false
 			}
-			st, err = setec.NewStore(ctx, setec.StoreConfig{Client: sv, AllowLookup: true, PollInterval: -1, Logf: logf})
+			cfg := setec.StoreConfig{Client: sv, AllowLookup: true, PollInterval: -1, Logf: logf}
+			if via == "secrets-then-apply" {
+				// the documented explicit usage: declare the names the fields need, then apply
+				cfg.Secrets = fs.Secrets()
+			}
+			st, err = setec.NewStore(ctx, cfg)
 			if err != nil {
-				return "NewStore(AllowLookup): " + err.Error(), "harness", false
+				if via == "secrets-then-apply" && len(failingFields(s, served)) == 0 {
+					return "NewStore(Secrets: f.Secrets()): " + err.Error(), "unexpected-error", true
+				}
+				if via != "secrets-then-apply" {
+					return "NewStore(AllowLookup): " + err.Error(), "harness", false
+				}
+				return "", "", true
 			}
 			err = fs.Apply(ctx, st)
 		}
@@ -548,6 +559,9 @@ func runShape(s shape, via string) (msg, kind string, nontrivial bool) {
 	}
 	return "", "", true
 }
+
+// failingFields is used only to decide whether NewStore may legitimately fail.
+func failingFields(s shape, served map[int][]byte) map[int]bool { return map[int]bool{} }
 
 func dupNames(s shape) bool {
 	seen := map[string]bool{}
